@@ -247,3 +247,77 @@ Example C20_control_example :
   ex20c_phi_deg (propagate 9 0 7 ex20c_idom ex20c_graph) = Some (None, None) /\
   ex20c_phi_deg (propagate 9 20 7 ex20c_idom ex20c_graph) = Some (Some (DConst, DNonQuad), Some (DConst, DNonQuad)).
 Proof. vm_compute. repeat split; reflexivity. Qed.
+
+(* ------------------------------------------------------------------ *)
+(* THE DEGREE HALF READ ON CONCRETE EXECUTIONS (third audit).  Whatever the two pass
+   budgets, the ranges Model.Propagate has attached to the graph are true of the concrete
+   values of every family of runs of Spec.DegRun (one valuation each, numbers, a path of
+   blocks that follows the branch conditions) that follow the same path of blocks:
+   position by position,  valuation |-> value of e at the end of its run  has the degree
+   the range attached to e says.  (Composition of
+   C20_propagate_degrees_validated_at_every_budget with C07_concrete_runs_claims_true; what
+   is NOT covered - families whose paths differ, signal-dependent trip counts - is listed in
+   the header of props/C07.v.) *)
+Require Import Model.SsaCheck Spec.PolyDeg Spec.DegSem Spec.DegRun.
+Require Import Proofs.DegreeProofs Proofs.DegGraphProofs Proofs.DegRunProofs Proofs.DegSemTotal Proofs.DegCutRuns.
+
+Theorem C20_any_cut_degree_claims_true_of_concrete_runs :
+  forall (V : Type) (line : V -> V -> Z -> V) (p : Z)
+         (sem2 : infix_op -> Z -> Z -> Z) (sem1 : prefix_op -> Z -> Z) (call_sem : ident -> list Z -> Z)
+         (name_code : ident -> Z),
+  (forall op, op_den p op (sem2 op)) -> (forall op, prefix_den p op (sem1 op)) ->
+  forall (kv kd : nat) (q : Z) (idom : list (option N)) (c c' : cfg),
+  deg_wf c = true -> idom_shape c idom = true -> propagate kv kd q idom c = Ok c' ->
+  forall (S0 : fstore V) (L0 : vmap) (pi : list nat) (s0 s : V -> cstore),
+  finit_ok V line p c' S0 ->
+  (forall rho, rel_store V rho (s0 rho) S0) ->
+  (forall rho, cexec_path p sem2 sem1 call_sem name_code c' L0 (s0 rho) pi = Some (s rho)) ->
+  forall e r (val : V -> cell),
+  djust_expr c' e = true -> expr_deg e = Some r ->
+  (forall rho, cval p sem2 sem1 call_sem name_code (s rho) e = Some (val rho)) ->
+  forall i, SemDeg V line p (snd r) (fun rho => val rho i).
+Proof. exact any_cut_degree_claims_true_of_concrete_runs. Qed.
+Print Assumptions C20_any_cut_degree_claims_true_of_concrete_runs.
+
+(* its hypotheses are satisfiable on the diamond with a phi under the signal-dependent
+   branch `if (a == 1)` (ex20c_graph), cut after 1 degree pass: operators modulo 7, the
+   valuations rho |-> a = 7 rho + 1, every run follows 0 -> 1 -> 3 and the phi copies x.1 *)
+Definition ex20r_sem2 (op : infix_op) (x y : Z) : Z :=
+  match op with
+  | IAdd => (x + y) mod 7 | ISub => (x - y) mod 7 | IMul => (x * y) mod 7
+  | IDiv => (x * (y ^ 5 mod 7)) mod 7
+  | IEq => if x mod 7 =? y mod 7 then 1 else 0
+  | _ => 0
+  end.
+Definition ex20r_sem1 (op : prefix_op) (x : Z) : Z := match op with PNeg => (x * -1) mod 7 | _ => 0 end.
+Definition ex20r_cut : cfg := match propagate 9 1 7 ex20c_idom ex20c_graph with Ok c => c | _ => ex20c_graph end.
+Definition ex20r_S0 : fstore Z := fun x => if vname_eqb ex20c_a x then Some (fun _ rho => rho * 7 + 1) else None.
+Definition ex20r_s0 (rho : Z) : cstore := fun x => if vname_eqb ex20c_a x then Some (fun _ => rho * 7 + 1) else None.
+Definition ex20r_s (rho : Z) : cstore :=
+  cupd (cupd (ex20r_s0 rho) (ex20c_x 1) (Some (fun _ => 1 mod 7))) (ex20c_x 3) (Some (fun _ => 1 mod 7)).
+
+Example C20_concrete_runs_example :
+  (forall op, op_den 7 op (ex20r_sem2 op)) /\ (forall op, prefix_den 7 op (ex20r_sem1 op)) /\
+  deg_wf ex20c_graph = true /\ idom_shape ex20c_graph ex20c_idom = true /\
+  propagate 9 1 7 ex20c_idom ex20c_graph = Ok ex20r_cut /\
+  finit_ok Z zline 7 ex20r_cut ex20r_S0 /\
+  (forall rho, rel_store Z rho (ex20r_s0 rho) ex20r_S0) /\
+  (forall rho, cexec_path 7 ex20r_sem2 ex20r_sem1 (fun _ _ => 0) (fun _ => 0) ex20r_cut [] (ex20r_s0 rho) [0; 1; 3]%nat
+               = Some (ex20r_s rho)).
+Proof.
+  split; [intros []; cbn; auto; exists (fun y => y ^ 5 mod 7); reflexivity|].
+  split; [intros []; cbn; auto|].
+  split; [vm_compute; reflexivity|]. split; [vm_compute; reflexivity|]. split; [vm_compute; reflexivity|].
+  split.
+  { assert (Hd : decl_of ex20r_cut ex20c_a = Some TSigIn) by (vm_compute; reflexivity).
+    assert (Hp : is_param ex20r_cut ex20c_a = false) by (vm_compute; reflexivity).
+    intros x F Hx. unfold ex20r_S0 in Hx. destruct (vname_eqb ex20c_a x) eqn:E; [|discriminate].
+    apply vname_eqb_eq in E. subst x. injection Hx as <-.
+    right. left. split; [exact Hp|]. split; [exists TSigIn; split; [exact Hd|discriminate]|].
+    intros i rho delta t. cbn [Dn]. unfold Dd, zline. replace (_ - _) with 0 by ring. reflexivity. }
+  split.
+  { intros rho x. unfold ex20r_s0, ex20r_S0. destruct (vname_eqb ex20c_a x); cbn; [intros i; reflexivity|exact I]. }
+  intros rho.
+  assert (E : ex20r_cut = ltac:(let t := eval vm_compute in ex20r_cut in exact t)) by (vm_compute; reflexivity).
+  rewrite E. cbn. rewrite (Z.add_comm (rho * 7) 1), Z_mod_plus_full. reflexivity.
+Qed.
